@@ -192,6 +192,26 @@ theorem quadtree_search_complete_rectangular (g : Geo) (nx ny : Nat) (xs ys : Na
   obtain ⟨e, he⟩ := List.exists_mem_of_ne_nil _ hne
   exact quadtree_search_complete_partial g pos c a q l hu hc hq hb hl ⟨e, he, hr e he⟩
 
+/-- **Axis-aligned rectangular columns form a `Lattice`**: if column `i + nx·j` has all its nodes in the cell
+    `[xs i, xs (i+1)] × [ys j, ys (j+1)]` and the cell's bottom-left and top-right corners among them (a
+    rectangle, nodes in any order or orientation), its `bounding_box` is that cell — so the `bbox` clause of
+    `Lattice` is derived from the polygons rather than assumed. -/
+theorem rectangular_columns_form_lattice (g : Geo) (nx ny : Nat) (xs ys : Nat → Rat)
+    (hn : g.ncols = nx * ny) (hx : ∀ i, i < nx → xs i ≤ xs (i + 1)) (hy : ∀ j, j < ny → ys j ≤ ys (j + 1))
+    (hpoly : ∀ i j, i < nx → j < ny →
+      (xs i, ys j) ∈ g.poly (i + nx * j) ∧ (xs (i + 1), ys (j + 1)) ∈ g.poly (i + nx * j) ∧
+      ∀ q ∈ g.poly (i + nx * j), inRectangle q ((xs i, ys j), (xs (i + 1), ys (j + 1))) = true)
+    (hcentre : ∀ k, k < g.ncols → inRectangle (g.centre k) (g.bbox k) = true)
+    (hE : ∀ i j, i + 1 < nx → j < ny →
+      (i + 1 + nx * j) ∈ g.nbrs (i + nx * j) ∧ (i + nx * j) ∈ g.nbrs (i + 1 + nx * j))
+    (hN : ∀ i j, i < nx → j + 1 < ny →
+      (i + nx * (j + 1)) ∈ g.nbrs (i + nx * j) ∧ (i + nx * j) ∈ g.nbrs (i + nx * (j + 1))) :
+    Lattice g nx ny xs ys :=
+  { ncols := hn, monoX := hx, monoY := hy, centre := hcentre, nbrE := hE, nbrN := hN,
+    bbox := fun i j hi hj => by
+      obtain ⟨h1, h2, h3⟩ := hpoly i j hi hj
+      exact bounds_of_rectangle (R := ((xs i, ys j), (xs (i + 1), ys (j + 1)))) h3 h1 h2 }
+
 /-- hence on a rectangular lattice the search with the quadtree (and any guess) **agrees with plain
     search at every point**, inside or outside the grid -/
 theorem quadtree_agrees_with_plain_rectangular (g : Geo) (nx ny : Nat) (xs ys : Nat → Rat) (L : Lattice g nx ny xs ys)
@@ -355,6 +375,11 @@ example : Lattice grid22 2 2 gridX gridY := by
   exact { ncols := by decide, monoX := by decide +kernel, monoY := by decide +kernel,
           bbox := fun i j hi hj => hb i hi j hj, centre := by decide +kernel,
           nbrE := fun i j hi hj => he i (by omega) j hj, nbrN := fun i j hi hj => hn i hi j (by omega) }
+-- rectangular_columns_form_lattice: the polygon hypothesis holds on `grid22`
+example : ∀ i, i < 2 → ∀ j, j < 2 →
+    (gridX i, gridY j) ∈ grid22.poly (i + 2 * j) ∧ (gridX (i + 1), gridY (j + 1)) ∈ grid22.poly (i + 2 * j) ∧
+    ∀ q ∈ grid22.poly (i + 2 * j), inRectangle q ((gridX i, gridY j), (gridX (i + 1), gridY (j + 1))) = true := by
+  decide +kernel
 example : Covers ((-1, -1), (4, 4)) 2 2 gridX gridY := by unfold Covers; decide +kernel
 example : ∃ q, columnQuadtree grid22 ((-1, -1), (4, 4)) (List.range grid22.ncols) = some q ∧
     grid22.containsPoint 3 (5/2, 9/4) = true ∧
